@@ -658,9 +658,78 @@ var natMalformed = []string{"nocolon", "1.2.3.4:", "1.2.3.4:abc", "[::1]", "[::1
 	"1.2.3.4:99999999999999999999", "[1.2.3.4:80", "1.2.3.4]:80", "[::1]:80:90", "", ":", "[]:5", "1.2.3.4:9223372036854775808",
 	"1.2.3.4:-9223372036854775808", "[a[b]:7", "1.2.3.4: 80"}
 
+// natLongAddrs: a list of n (3..6) entries whose first entries decide the NAT type — prefix 0 same address,
+// 1 port-only change, 2 IP-only change, 3 IP and port change at entry 1, 4 IP change at entry 1 and port change at
+// entry 2 — with entry badPos (if 0 <= badPos < n) replaced by `bad` (natBadEntry): a malformed / unparsable address
+// or one with a port outside 1..65535.  Every entry is validated by ClassifyNATFeature, also those after the point where the
+// type is already decided.
+func natLongAddrs(rng *rand.Rand, n, prefix int, ip string, badPos int, bad string) []string {
+	p := pick(rng, []int{7, 80, 1000, 4000, 40000, 65520})
+	ip2 := ip
+	for ip2 == ip {
+		ip2 = pick(rng, natIPs[:6])
+	}
+	step := 1 + rng.Intn(12)
+	out := []string{}
+	for i := 0; i < n; i++ {
+		h, q := ip, p
+		switch prefix {
+		case 1:
+			q = p + i*step%15
+			if i == 1 {
+				q = p + 1
+			}
+		case 2:
+			if i > 0 {
+				h = ip2
+			}
+		case 3:
+			if i > 0 {
+				h, q = ip2, p+1+(i-1)*step%15
+			}
+		case 4:
+			if i > 0 {
+				h = ip2
+			}
+			if i > 1 {
+				q = p + 1 + (i-2)*step%15
+			}
+		}
+		if i == badPos {
+			if strings.HasPrefix(bad, "\x00") {
+				out = append(out, h+":"+bad[1:]) // a bad port on the host this position would have had
+			} else {
+				out = append(out, bad)
+			}
+		} else {
+			out = append(out, h+":"+strconv.Itoa(q))
+		}
+	}
+	return out
+}
+
+func natBadEntry(rng *rand.Rand) string {
+	if rng.Intn(2) == 0 {
+		return "\x00" + pick(rng, natBadPorts) // marker: a port for natLongAddrs to put on the position's host
+	}
+	return pick(rng, natMalformed)
+}
+
 // one mapped-address list; kind: 0 easy, 1 hard regular ports, 2 hard irregular ports, 3 ip changed, 4 both,
-// 5 out-of-range port, 6 malformed member, 7 short list
+// 5 out-of-range port, 6 malformed member, 7 short list, 8 long list (natLongAddrs) with one bad entry anywhere
+// (1 in 5: none)
 func natAddrs(rng *rand.Rand, kind int, ip string) []string {
+	if kind == 8 {
+		n := 3 + rng.Intn(4)
+		pos := rng.Intn(n)
+		if rng.Intn(5) == 0 {
+			pos = -1
+		}
+		if ip == "" || ip == "host.example" {
+			ip = "1.2.3.4"
+		}
+		return natLongAddrs(rng, n, rng.Intn(5), ip, pos, natBadEntry(rng))
+	}
 	p := pick(rng, natBasePorts)
 	ps := strconv.Itoa(p)
 	ip2 := pick(rng, natIPs)
@@ -716,8 +785,10 @@ func natAddrs(rng *rand.Rand, kind int, ip string) []string {
 }
 
 func natKind(rng *rand.Rand) int {
-	r := rng.Intn(100)
+	r := rng.Intn(112)
 	switch {
+	case r >= 100:
+		return 8
 	case r < 30:
 		return 0
 	case r < 55:
@@ -777,6 +848,83 @@ func natPortsOutOfRange(addrs []string) bool {
 	return natAnyOutOfRange([]string{a})
 }
 
+// natWalkRound: a fresh controller and, for each of the six feature-pair classes of NewMakeHoleRecords (easy/easy,
+// hard/easy with irregular and with regular ports, hard/hard with both / one / no side regular), as many sessions of
+// ONE address pair as its score list has rows plus one, none of them credited a success: the key walks down every
+// row of every table it may use (mode 0 rows 6..9 with their 5 s / 10 s send delays included), in either
+// orientation, and `rangechk` judges the two responses of every one of them (roles, ranges, timing).
+func natWalkRound(rng *rand.Rand, e func(string)) {
+	e("reset")
+	e(fmt.Sprintf("listen %s %s %s", hx("px"), hx("sk"), mklist([]string{"*"})))
+	addrs := func(kind byte, ip string, p int) []string {
+		a := ip + ":" + strconv.Itoa(p)
+		switch kind {
+		case 'r':
+			return []string{a, ip + ":" + strconv.Itoa(p+1+rng.Intn(4))}
+		case 'i':
+			return []string{a, ip + ":" + strconv.Itoa(p+8+rng.Intn(40))}
+		}
+		return []string{a, a}
+	}
+	classes := []struct {
+		a, b byte
+		rows int
+	}{{'e', 'e', 10}, {'i', 'e', 19}, {'r', 'e', 19}, {'r', 'r', 9}, {'r', 'i', 3}, {'i', 'i', 22}}
+	scripts := [][]string{}
+	id := 0
+	ids := []int{}
+	for ci, c := range classes {
+		vk, ck := c.a, c.b
+		if rng.Intn(2) == 0 {
+			vk, ck = ck, vk
+		}
+		vip, cip := fmt.Sprintf("1.2.3.%d", 10+ci), fmt.Sprintf("9.9.9.%d", 10+ci)
+		vp, cp := pick(rng, []int{80, 1000, 40000}), pick(rng, []int{443, 5000, 60000})
+		pub := rng.Intn(3) // 1: the visitor is on the public network, 2: the owner is (another order of the mode 0 rows)
+		for j := 0; j <= c.rows; j++ {
+			vm, cm := addrs(vk, vip, vp), addrs(ck, cip, cp)
+			va, ca := []string{"192.168.1.7:5000"}, []string{}
+			if pub == 1 {
+				va = []string{vm[0]}
+			} else if pub == 2 {
+				ca = []string{cm[0]}
+			}
+			sc := []string{
+				fmt.Sprintf("visit %d %s %s %d %d %s %s %s %s", id, hx("px"), hx("sk"), 12, 12, hx("alice"), hx("quic"), mklist(vm), mklist(va)),
+				"notify " + hx("px"),
+				fmt.Sprintf("cli %d 0 %s %s", id, mklist(cm), mklist(ca)),
+			}
+			if rng.Intn(4) == 0 {
+				sc = append(sc, fmt.Sprintf("report %d 0", id)) // a failure report credits nothing
+			}
+			scripts = append(scripts, sc)
+			ids = append(ids, id)
+			id++
+		}
+	}
+	// within a class the sessions stay in order (the scripts of one class are consecutive and the window is 2)
+	for len(scripts) > 0 {
+		w := len(scripts)
+		if w > 2 {
+			w = 2
+		}
+		i := rng.Intn(w)
+		e(scripts[i][0])
+		scripts[i] = scripts[i][1:]
+		if len(scripts[i]) == 0 {
+			scripts = append(scripts[:i], scripts[i+1:]...)
+		}
+	}
+	e("settle")
+	e("stuck")
+	for _, id := range ids {
+		e(fmt.Sprintf("resp %d inr", id))
+		e(fmt.Sprintf("rangechk %d inr", id))
+	}
+	e("adump")
+	e("reset")
+}
+
 func natGen(rng *rand.Rand, n int, emit func(string)) {
 	emit("reset")
 	feats := []string{"e00", "e01", "h00", "h10", "h01", "h11", "e10"}
@@ -795,6 +943,19 @@ func natGen(rng *rand.Rand, n int, emit func(string)) {
 			rounds++
 		}
 		switch {
+		case r < 22 && rng.Intn(4) == 0: // classification, systematic: one bad entry at EVERY position of a long list,
+			// for every type-deciding prefix (and the same lists without the bad entry)
+			n := 3 + rng.Intn(4)
+			ip := pick(rng, natIPs[:4])
+			for prefix := 0; prefix < 5; prefix++ {
+				for pos := -1; pos < n; pos++ {
+					if pos == -1 && rng.Intn(2) == 0 {
+						continue
+					}
+					m := natLongAddrs(rng, n, prefix, ip, pos, natBadEntry(rng))
+					e("classify " + mklist(m) + " " + mklist([]string{pick(rng, natIPs[:4])}))
+				}
+			}
 		case r < 22: // classification
 			for j := 0; j < 6; j++ {
 				m := natAddrs(rng, natKind(rng), pick(rng, natIPs))
@@ -844,6 +1005,11 @@ func natGen(rng *rand.Rand, n int, emit func(string)) {
 				e("reset")
 			}
 		default: // one controller round
+			if rounds == 1 || rounds%8 == 0 {
+				natWalkRound(rng, e)
+				nextID = 0
+				continue
+			}
 			for _, nm := range names {
 				switch r := rng.Intn(20); {
 				case r < 17:
